@@ -63,6 +63,7 @@ def build():
         stamp = source_stamp()
         try:
             if os.path.exists(BIN) and open(stampf).read().strip() == stamp and not os.environ.get("VERIF_FORCE_BUILD"):
+                pin_binary()
                 return time.time() - t0
         except OSError:
             pass
@@ -85,10 +86,41 @@ def build():
         with open(stampf + ".tmp", "w") as f:
             f.write(stamp)
         os.replace(stampf + ".tmp", stampf)
+        pin_binary()
     finally:
         fcntl.flock(lock, fcntl.LOCK_UN)
         os.close(lock)
     return time.time() - t0
+
+
+RUNBIN = [None]
+
+
+def pin_binary():
+    """This process keeps running the binary it built / found: a private hard link, so that a rebuild by another check
+    (after /repo changed) never swaps the binary in the middle of a batch. Called with the build lock held."""
+    import atexit
+    if RUNBIN[0]:
+        try:
+            os.remove(RUNBIN[0])
+        except OSError:
+            pass
+    for fn in os.listdir(BUILD):  # links left by checks that were killed
+        if fn.startswith("sim.test.run."):
+            try:
+                if not os.path.exists("/proc/%d" % int(fn.rsplit(".", 1)[1])):
+                    os.remove(os.path.join(BUILD, fn))
+            except (ValueError, OSError):
+                pass
+    priv = "%s.run.%d" % (BIN, os.getpid())
+    try:
+        if os.path.exists(priv):
+            os.remove(priv)
+        os.link(BIN, priv)
+        RUNBIN[0] = priv
+        atexit.register(lambda: os.path.exists(priv) and os.remove(priv))
+    except OSError:
+        RUNBIN[0] = None  # no hard links here: run the shared binary
 
 
 import fcntl, contextlib
@@ -166,7 +198,7 @@ def run_child(plan, workdir, keeplog=False, timeout=90, gomaxprocs="1"):
         if keeplog:
             env["VERIF_KEEPLOG"] = "1"
         try:
-            cmd = ["bash", "-c", "ulimit -v 6291456; exec '%s' -test.run '^TestChild$' -test.timeout 120s" % BIN]
+            cmd = ["bash", "-c", "ulimit -v 6291456; exec '%s' -test.run '^TestChild$' -test.timeout 120s" % (RUNBIN[0] or BIN)]
             for attempt in range(40):
                 if os.path.exists(of):
                     os.remove(of)
